@@ -162,7 +162,12 @@ def linebreak(chk, w):
     h, blks = lp
     pre = [o for o in it.run(0, stop=[h]) if o.kind == "stop"]
     names = b.names()
-    prev_l = [l for l, n in names.items() if n == "prev_c"]
+    # roles by structure, not by the programmer's names: the previous character is the user variable of type `char` that is
+    # carried around the loop; the counter is the loop-carried variable used as index of the store; the byte offset is the
+    # remaining loop-carried usize
+    carried = [l for l in sorted(it._loop_assigned_locals(h)) if l in names and C.loop_carried(b, cf, h, l)]
+    prev_l = [l for l in carried if b.locals[l]["ty"] == "char"]
+    role = {}
     outs = it.run(h, stop=set(cf.blocks) - blks, env=pre[0].env, cons=pre[0].cons, stop_at_entry_again=True, trace=pre[0].trace)
     n0 = len(pre[0].trace)
     rows = set()
@@ -194,10 +199,14 @@ def linebreak(chk, w):
             if e[0] == "call" and (e[2] or "").endswith("get_unchecked_mut"):
                 idx_forms.add(C.show_arg(nz, e[3][1]))
         # loop-carried updates: i += 1 ; prev_c = c
-        for l, n in names.items():
-            if n in ("i", "prev_c", "offset") and l in it._loop_assigned_locals(h):
-                v = o.value_at((("L", l),))
-                upd.add((n, forms.show(nz.form(v)) if v[0] in ("expr", "i") else nz.value_atom(v)))
+        for f_ in idx_forms:
+            m_ = re.fullmatch(r"hv:loop%d:_(\d+)" % h, f_)
+            if m_:
+                role[int(m_.group(1))] = "i"
+        for l in carried:
+            n = "prev_c" if l in prev_l else role.get(l, "offset" if b.locals[l]["ty"] == "usize" else names[l])
+            v = o.value_at((("L", l),))
+            upd.add((n, forms.show(nz.form(v)) if v[0] in ("expr", "i") else nz.value_atom(v)))
     # complete decision table over (previous, current) in {CR, LF, other}^2; a component never tested on a path ("any") stands
     # for all three classes
     good = True
@@ -215,7 +224,7 @@ def linebreak(chk, w):
            "line-break filter derives (previous char, current char, stores) = %s; specification: store WordBoundary iff previous or current is CR/LF" % sorted(rows), site=C.site(b, h),
            sample={"rows": str(sorted(rows))})
     chk.ob("R15.2", "linebreak:constant", {x for _, _, st in rows for x in st} == {"WordBoundary"}, "line-break filter stores %s" % {x for _, _, st in rows for x in st}, site=C.site(b))
-    iname = [l for l, n in names.items() if n == "i"]
+    iname = [l for l, r_ in role.items() if r_ == "i"]
     chk.ob("R15.3", "linebreak:index", idx_forms == {"hv:loop%d:_%d" % (h, iname[0])} if iname else False, "the store index is %s; expected the running character counter i" % sorted(idx_forms), site=C.site(b, h))
     iupd = {u for u in upd if u[0] == "i"}
     pupd = {u for u in upd if u[0] == "prev_c"}
